@@ -24,7 +24,7 @@ import (
 
 func TestCheck(t *testing.T) {
 	vkit.Run(t, "C08", "exploration", func(r *vkit.R) {
-		r.Rule("max-in-flight: (S) seeded sequential op lists (request ids as small integers and at UnixNano scale; fresh, equal, stale from 1 ns to hours behind incl. latest-3e10+-1, 1, <= 0; counts 0..limit+2, removals, limit raised/lowered) on flowcontrol.NewGlobalFlowControl objects and " +
+		r.Rule("max-in-flight: (S) seeded sequential op lists (request ids as small integers and at UnixNano scale; fresh, equal, stale from 1 ns to hours behind incl. latest-3e10+-1, 1, <= 0; counts 0..limit+2 and int32 boundaries (MaxInt32, MaxInt32-1, 2^30, 2^30+1, limit, limit+1, the count that takes the sum to 2^31), limits up to MaxInt32, removals, limit raised/lowered) on flowcontrol.NewGlobalFlowControl objects and " +
 			"through the real server (DoAcquire / DeleteInstanceState / cluster handler), every answer and DebugInfo() compared with the reference model (model.go); " +
 			"(B) concurrent batches of five kinds (one writer per instance; several writers per instance; removals racing with other instances' reports; several removals of one instance; " +
 			"removal racing with the instance's own reports) with schedule points at the lock/atomic statements, accounting checked at quiescence; " +
@@ -43,6 +43,7 @@ func TestCheck(t *testing.T) {
 		tokenBucket(r)
 		r.ReportSched()
 		r.Require(r.Counter("seq_ops") >= 20000 && r.Counter("seq_increase_applied") >= 1000 && r.Counter("seq_increase_refused") >= 1000 &&
+			r.Counter("seq_boundary_counts") >= 2000 && r.Counter("seq_asks_whose_sum_exceeds_int32") >= 300 && r.Counter("batch_boundary_counts") >= 1000 &&
 			r.Counter("seq_stale_id") >= 500 && r.Counter("seq_stale_id_far_behind") >= 300 && r.Counter("seq_removals") >= 500 && r.Counter("seq_decrease_while_over_limit") >= 100, "sequential part observed too little")
 		r.Require(r.Counter("batch_racing-removals") >= 50 && r.Counter("batch_removal-vs-own-report") >= 50 && r.Counter("batch_reports") >= 50 &&
 			r.Counter("batch_reports-multiwriter") >= 50 && r.Counter("batch_removals-vs-other-reports") >= 50, "too few concurrent batches")
@@ -207,6 +208,9 @@ func classify(m *Model, in In, out Out) string {
 		}
 		return "decrease-not-applied/within-limit"
 	case out.Latest == in.Count:
+		if m.Total()-int64(cur.Count)+int64(in.Count) > math.MaxInt32 {
+			return "grant-beyond-limit/int32-wrap" // the sum of the counts on record no longer fits the int32 running total
+		}
 		return "grant-beyond-limit"
 	}
 	return "answer-inconsistent"
@@ -232,6 +236,51 @@ func compareDebug(m *Model, d debug) string {
 	return ""
 }
 
+// c32 clamps to the int32 range of a count / limit.
+func c32(v int64) int32 {
+	if v > math.MaxInt32 {
+		return math.MaxInt32
+	}
+	if v < 0 {
+		return 0
+	}
+	return int32(v)
+}
+
+func rng(g *vkit.Rand, lo, hi int64) int64 {
+	if hi <= lo {
+		return lo
+	}
+	return lo + int64(g.Uint64()%uint64(hi-lo+1))
+}
+
+var bigLimits = []int32{1 << 30, 1<<30 + 1, math.MaxInt32 - 1, math.MaxInt32}
+
+// boundaryCount: counts at the edges of the int32 range and of the limit, and the count that makes the sum of all counts
+// (others = what the other instances hold) land exactly on 2^31, one past the largest int32.
+func boundaryCount(g *vkit.Rand, max int32, others int64) int32 {
+	switch g.Intn(8) {
+	case 0:
+		return math.MaxInt32
+	case 1:
+		return math.MaxInt32 - 1
+	case 2:
+		return 1 << 30
+	case 3:
+		return 1<<30 + 1
+	case 4:
+		return c32(int64(max) + 1)
+	case 5:
+		return max
+	case 6:
+		if w := int64(1)<<31 - others; w >= 1 && w <= math.MaxInt32 {
+			return int32(w)
+		}
+		return math.MaxInt32
+	}
+	return c32(int64(1)<<31 - others + rng(g, 0, 2))
+}
+
 // ---------------------------------------------------------------- (S) sequential
 
 type seqOp struct {
@@ -245,6 +294,10 @@ func sequential(r *vkit.R) {
 	n := r.N(4000, 40000)
 	r.Parallel(n, 16, func(i int, g *vkit.Rand) {
 		max := g.PickI32([]int32{1, 2, 3, 5, 10, 50})
+		if i%8 == 5 || i%8 == 7 { // limits of the order of the int32 range (direct and through the server)
+			max = g.PickI32(bigLimits)
+			r.Count("seq_cases_with_limit_near_int32_range", 1)
+		}
 		var tg target
 		if i%4 == 3 {
 			v, err := newViaServer(max, i)
@@ -272,9 +325,9 @@ func sequential(r *vkit.R) {
 			last := "report"
 			switch {
 			case x < 8: // limit change at quiescence
-				nm := int32(g.Range(1, int(2*max)+1))
+				nm := c32(rng(g, 1, 2*int64(max)+1))
 				if g.Bool() && m.Total() > 1 {
-					nm = int32(g.Range(1, int(m.Total()))) // at or below the recorded total
+					nm = c32(rng(g, 1, m.Total())) // at or below the recorded total
 				}
 				tg.Resize(nm)
 				m.Max = nm
@@ -308,7 +361,7 @@ func sequential(r *vkit.R) {
 					} else if g.Bool() {
 						in.ID = int64(g.Range(1, int(in.ID)))
 					}
-					in.Count = int32(g.Range(0, int(m.Max)+2))
+					in.Count = c32(rng(g, 0, int64(m.Max)+2))
 					r.Count("seq_stale_id", 1)
 					nontrivial = true
 				default:
@@ -326,15 +379,23 @@ func sequential(r *vkit.R) {
 					}
 					switch g.Intn(4) {
 					case 0:
-						in.Count = int32(g.Range(0, int(m.Inst[inst].Count))) // a decrease
+						in.Count = c32(rng(g, 0, int64(m.Inst[inst].Count))) // a decrease
 					case 1:
 						room := int64(m.Max) - m.Total() + int64(m.Inst[inst].Count)
 						if room < 0 {
 							room = 0
 						}
-						in.Count = int32(room) + int32(g.Range(0, 1)) // exactly fills / just exceeds
+						in.Count = c32(room + rng(g, 0, 1)) // exactly fills / just exceeds
 					default:
-						in.Count = int32(g.Range(0, int(m.Max)+2))
+						in.Count = c32(rng(g, 0, int64(m.Max)+2))
+					}
+					if g.Chance(0.12) {
+						in.Count = boundaryCount(g, m.Max, m.Total()-int64(m.Inst[inst].Count))
+						r.Count("seq_boundary_counts", 1)
+						if m.Total()-int64(m.Inst[inst].Count)+int64(in.Count) > math.MaxInt32 {
+							r.Count("seq_asks_whose_sum_exceeds_int32", 1)
+							nontrivial = true
+						}
 					}
 				}
 				cur := m.Inst[in.Instance]
@@ -464,6 +525,10 @@ func batches(r *vkit.R) {
 	n := r.N(1500, 15000)
 	r.Parallel(n, 8, func(i int, g *vkit.Rand) {
 		max := g.PickI32([]int32{2, 5, 10, 20, 100})
+		if i%8 == 6 || i%40 == 4 { // limits of the order of the int32 range (i%40==4: through the server)
+			max = g.PickI32(bigLimits)
+			r.Count("batch_cases_with_limit_near_int32_range", 1)
+		}
 		var tg target = newDirect(max)
 		if i%5 == 4 {
 			v, err := newViaServer(max, i)
@@ -495,9 +560,13 @@ func batches(r *vkit.R) {
 			genReports := func(inst string, m int) []In {
 				ops := make([]In, m)
 				for q := range ops {
-					c := int32(g.Range(0, int(max)+2))
+					c := c32(rng(g, 0, int64(max)+2))
 					if g.Chance(0.3) {
-						c = int32(g.Range(0, int(max)/k+1))
+						c = c32(rng(g, 0, int64(max)/int64(k)+1))
+					}
+					if g.Chance(0.1) {
+						c = boundaryCount(g, max, sumBefore-rec[inst])
+						r.Count("batch_boundary_counts", 1)
 					}
 					ops[q] = In{Instance: inst, Count: c}
 				}
@@ -585,9 +654,16 @@ func batches(r *vkit.R) {
 			if bound < int64(max) {
 				bound = int64(max)
 			}
-			if d.Total > bound {
-				r.Violation("C08/maxinflight/concurrent/sum-beyond-limit",
-					fmt.Sprintf("%s: counts on record sum to %d after the batch (limit %d, sum before %d)", tg.Name(), d.Total, max, sumBefore), wit())
+			var sumPer int64 // the per-instance counts summed in int64 (the server's own totals are int32)
+			for _, v := range d.Per {
+				sumPer += v
+			}
+			if sumPer > bound {
+				sig := "C08/maxinflight/concurrent/sum-beyond-limit"
+				if sumPer > math.MaxInt32 {
+					sig += "/int32-wrap"
+				}
+				r.Violation(sig, fmt.Sprintf("%s: counts on record sum to %d after the batch (limit %d, sum before %d; the server prints count=%d total=%d)", tg.Name(), sumPer, max, sumBefore, d.Count, d.Total), wit())
 				return
 			}
 			// per call (kinds with one writer per instance and no removal of that instance: its record is known exactly)
@@ -651,9 +727,9 @@ func batches(r *vkit.R) {
 			}
 			// limit change at quiescence
 			if g.Chance(0.25) {
-				nm := int32(g.Range(1, int(2*max)))
+				nm := c32(rng(g, 1, 2*int64(max)))
 				if g.Bool() && d.Total > 1 {
-					nm = int32(g.Range(1, int(d.Total)))
+					nm = c32(rng(g, 1, d.Total))
 				}
 				tg.Resize(nm)
 				max = nm
